@@ -4,6 +4,7 @@ cd /verif
 for d in ${SEEDROOT:-/tmp/seed}/C*-out/[12]; do
   [ -f "$d/meta.json" ] || continue
   [ -f "$d/patch.diff" ] || continue
+  if [ -n "$ONLY" ] && ! echo "$d" | grep -qE "$ONLY"; then continue; fi
   [ -f "$d/verify.log" ] && grep -q '^RESULT' "$d/verify.log" && continue
   echo "=== $d $(date +%H:%M:%S)"
   git -C /repo apply --stat "$d/patch.diff" 2>/dev/null | head -5
